@@ -71,8 +71,6 @@ structure Rel (st : Init) (env : Env) : Prop where
   nq : st.nq = env.qregs.total
   nc : st.nc = env.cregs.total
   pos : Gen.emptyRegOk = false → ∀ r s n, env.qregs.find? r = some (s, n) → 0 < n
-  defs : st.defs = []
-  gates : env.gates = qelib1.reverse
 
 theorem regs_find_add (rs : Regs) (n r : Str) (k : Nat) (hnew : rs.find? n = none) :
     (rs.add n k).find? r = if n == r then some (rs.total, k) else rs.find? r := by
@@ -628,12 +626,13 @@ theorem gateAdd_predef (st : Init) (known : List (Str × List IGate)) (name : St
 /-- a call of a `qelib1.inc` gate -/
 theorem gateAdd_call {st : Init} {env : Env} (hr : Rel st env) (known : List (Str × List IGate))
     (cnd : Option (Str × Nat)) (name : Str) (ps : List Expr) (qs : List Arg) (fl : List FlatOp)
+    (hqel : ∀ sg, env.sig? name = some sg → ∃ d ∈ qelib1, d.name = name ∧ sg = d.sig)
     (h : flattenQOp env cnd (.call name ps qs) = .ok fl) (hz : ∀ e ∈ ps, divZero e = false)
     (hcv : ∀ cond, condOf env cnd = .ok cond → condUnsat cond = false ∧ cvBad (ccOf cond) (cvOf cond) = false) :
     ∃ cond, condOf env cnd = .ok cond ∧ predefined name = true ∧
       gateAdd st known name ps qs (ccOf cond) (cvOf cond) = .ok (fl.flatMap gatesOf, known) := by
   obtain ⟨cond, sg, xs, ts, hcond, hsig, hnp, hnq, hsup, hcl, hra, hbc, rfl⟩ := flatten_call_inv h
-  obtain ⟨d, hd, hdn, hsg⟩ := sig_qelib hr.gates hsig
+  obtain ⟨d, hd, hdn, hsg⟩ := hqel sg hsig
   subst hdn
   obtain ⟨hrs, hdup⟩ := regSet_of_spec hr qs xs ts hra hbc
   have hk := List.all_eq_true.mp qelib_ok d hd
@@ -920,7 +919,8 @@ def isGateOp : QOp → Bool
   | _ => false
 
 /-- **one gate operation** under a condition the importer does not skip -/
-theorem qopAdd_gate {st : Init} {env : Env} (hr : Rel st env) (known : List (Str × List IGate))
+theorem qopAdd_gate {st : Init} {env : Env} (hr : Rel st env) (hg : env.gates = qelib1.reverse)
+    (known : List (Str × List IGate))
     (cnd : Option (Str × Nat)) (viaIf : Bool) (op : QOp) (hop : isGateOp op = true) (fl : List FlatOp)
     (h : flattenQOp env cnd op = .ok fl)
     (hz : ∀ e ∈ paramsOf (.qop op), divZero e = false)
@@ -935,9 +935,9 @@ theorem qopAdd_gate {st : Init} {env : Env} (hr : Rel st env) (known : List (Str
     obtain ⟨cond, hc, hg⟩ := gateAdd_CX hr known cnd a b fl h hcv
     exact ⟨cond, hc, by simpa [qopAdd] using hg⟩
   | call n ps qs =>
-    obtain ⟨cond, hc, hpre, hg⟩ := gateAdd_call hr known cnd n ps qs fl h hz hcv
+    obtain ⟨cond, hc, hpre, hga⟩ := gateAdd_call hr known cnd n ps qs fl (fun sg hs => sig_qelib hg hs) h hz hcv
     have : isGateName st.defs n = true := by simp [isGateName, hpre]
-    exact ⟨cond, hc, by simpa [qopAdd, this] using hg⟩
+    exact ⟨cond, hc, by simpa [qopAdd, this] using hga⟩
   | measure q c => simp [isGateOp] at hop
   | reset q => simp [isGateOp] at hop
 
@@ -986,7 +986,8 @@ theorem flattenQOp_skipped {env : Env} {c : Str} {k : Nat} (op : QOp) (hop : isG
   | measure q c => simp [isGateOp] at hop
   | reset q => simp [isGateOp] at hop
 
-theorem flattenStmt_op {st : Init} {env env' : Env} (hr : Rel st env) (known : List (Str × List IGate))
+theorem flattenStmt_op {st : Init} {env env' : Env} (hr : Rel st env) (hgt : env.gates = qelib1.reverse)
+    (known : List (Str × List IGate))
     (s : Stmt) (hop : isOp s = true) (hnb : notBarrier s = true) (fl : List FlatOp)
     (h : flattenStmt env s = .ok (env', fl)) (hz : ∀ e ∈ paramsOf s, divZero e = false)
     (hk : ifRangeOk env s) :
@@ -1001,7 +1002,7 @@ theorem flattenStmt_op {st : Init} {env env' : Env} (hr : Rel st env) (known : L
       obtain ⟨rfl, rfl⟩ := h
       refine ⟨rfl, ?_⟩
       by_cases hg : isGateOp op = true
-      · obtain ⟨cond, hc, hadd⟩ := qopAdd_gate hr known none false op hg fl' hq
+      · obtain ⟨cond, hc, hadd⟩ := qopAdd_gate hr hgt known none false op hg fl' hq
           (by cases op <;> simpa [paramsOf] using hz) cvBad_none
         simp only [condOf, Except.ok.injEq] at hc
         subst hc
@@ -1034,7 +1035,7 @@ theorem flattenStmt_op {st : Init} {env env' : Env} (hr : Rel st env) (known : L
       by_cases hs : condSkipped n k = true
       · -- repaired variant, value out of range: the operation is checked, nothing is added
         obtain ⟨⟨fl0, h0⟩, hnil⟩ := flattenQOp_skipped op hg fl' hq
-        obtain ⟨cond0, hc0, hadd⟩ := qopAdd_gate hr known none true op hg fl0 h0 hzz cvBad_none
+        obtain ⟨cond0, hc0, hadd⟩ := qopAdd_gate hr hgt known none true op hg fl0 h0 hzz cvBad_none
         simp only [condOf, Except.ok.injEq] at hc0
         subst hc0
         have hemp : fl'.flatMap gatesOf = [] := by
@@ -1044,7 +1045,7 @@ theorem flattenStmt_op {st : Init} {env env' : Env} (hr : Rel st env) (known : L
         simp [stepStmt, hf, hs, hadd, hemp, Except.map]
       · have hs' : condSkipped n k = false := by simpa using hs
         have hlt := cond_fits hfe hk hs'
-        obtain ⟨cond, hc, hadd⟩ := qopAdd_gate hr known (some (c, k)) true op hg fl' hq hzz
+        obtain ⟨cond, hc, hadd⟩ := qopAdd_gate hr hgt known (some (c, k)) true op hg fl' hq hzz
           (cvBad_some hfe hlt hs')
         simp only [condOf, hfe, Except.ok.injEq] at hc
         subst hc
@@ -1116,7 +1117,8 @@ theorem flattenFrom_ops_env : ∀ (ops : List Stmt) (env env' : Env) (fl : List 
     exact ih e1 env' o2 hall.2 h2
 
 /-- the operations: the importer's second pass adds the gates of the flat operations, in order -/
-theorem finalPass_ops {st : Init} {env : Env} (hr : Rel st env) (known : List (Str × List IGate)) :
+theorem finalPass_ops {st : Init} {env : Env} (hr : Rel st env) (hgt : env.gates = qelib1.reverse)
+    (known : List (Str × List IGate)) :
     ∀ (ops : List Stmt) (env' : Env) (fl : List FlatOp), ops.all isOp = true →
       (∀ s ∈ ops, ∀ e ∈ paramsOf s, divZero e = false) → (∀ s ∈ ops, ifRangeOk env s) →
       flattenFrom env ops = .ok (env', fl) →
@@ -1133,7 +1135,7 @@ theorem finalPass_ops {st : Init} {env : Env} (hr : Rel st env) (known : List (S
     simp only [List.all_cons, Bool.and_eq_true] at hall
     obtain ⟨e1, o1, o2, h1, h2, rfl⟩ := flattenFrom_cons_inv h
     by_cases hb : notBarrier s = true
-    · obtain ⟨he, hstep⟩ := flattenStmt_op hr known s hall.1 hb o1 h1 (hz s (by simp)) (hkk s (by simp))
+    · obtain ⟨he, hstep⟩ := flattenStmt_op hr hgt known s hall.1 hb o1 h1 (hz s (by simp)) (hkk s (by simp))
       subst he
       obtain ⟨he2, hfin⟩ := ih env' o2 hall.2 (fun t ht => hz t (by simp [ht])) (fun t ht => hkk t (by simp [ht])) h2
       refine ⟨he2, ?_⟩
@@ -1198,14 +1200,14 @@ theorem initPass_ops (ops : List Stmt) (st : Init) (hall : ops.all isOp = true) 
 theorem decls_rel : ∀ (decls : List Stmt) (st : Init) (env env' : Env) (fl : List FlatOp),
     decls.all isDecl = true → Rel st env → flattenFrom env decls = .ok (env', fl) →
     ∃ st', (∀ tail, initPass (decls ++ tail) st = initPass tail st') ∧ Rel st' env' ∧ fl = [] ∧
-      st'.rest = st.rest := by
+      st'.rest = st.rest ∧ st'.defs = st.defs ∧ env'.gates = env.gates := by
   intro decls
   induction decls with
   | nil =>
     intro st env env' fl _ hr h
     simp only [flattenFrom, Except.ok.injEq, Prod.mk.injEq] at h
     obtain ⟨rfl, rfl⟩ := h
-    exact ⟨st, fun _ => rfl, hr, rfl, rfl⟩
+    exact ⟨st, fun _ => rfl, hr, rfl, rfl, rfl, rfl⟩
   | cons d ds ih =>
     intro st env env' fl hall hr h
     simp only [List.all_cons, Bool.and_eq_true] at hall
@@ -1223,7 +1225,7 @@ theorem decls_rel : ∀ (decls : List Stmt) (st : Init) (env env' : Env) (fl : L
           cases hf : env.qregs.find? n <;> simp_all
         have hr' : Rel { st with qregs := (n, st.nq, k) :: st.qregs, nq := st.nq + k }
             { env with qregs := env.qregs.add n k } := by
-          refine ⟨fun r => ?_, hr.c, ?_, hr.nc, ?_, hr.defs, hr.gates⟩
+          refine ⟨fun r => ?_, hr.c, ?_, hr.nc, ?_⟩
           · rw [regFind_cons, regs_find_add _ _ _ _ hq, hr.q r, hr.nq]
           · simp [Regs.add, hr.nq]
           · intro hflag r s m hfind
@@ -1235,8 +1237,8 @@ theorem decls_rel : ∀ (decls : List Stmt) (st : Init) (env env' : Env) (fl : L
               · omega
             · simp only [he] at hfind
               exact hr.pos hflag r s m hfind
-        obtain ⟨st', hi, hrel, hfl, hrest⟩ := ih _ _ env' o2 hall.2 hr' h2
-        exact ⟨st', fun tail => by simpa [initPass] using hi tail, hrel, by simp [hfl], hrest⟩
+        obtain ⟨st', hi, hrel, hfl, hrest, hdefs, hgates⟩ := ih _ _ env' o2 hall.2 hr' h2
+        exact ⟨st', fun tail => by simpa [initPass] using hi tail, hrel, by simp [hfl], hrest, hdefs, hgates⟩
     | creg n k =>
       simp only [flattenStmt] at h1
       split at h1
@@ -1248,11 +1250,11 @@ theorem decls_rel : ∀ (decls : List Stmt) (st : Init) (env env' : Env) (fl : L
           cases hf : env.cregs.find? n <;> simp_all
         have hr' : Rel { st with cregs := (n, st.nc, k) :: st.cregs, nc := st.nc + k }
             { env with cregs := env.cregs.add n k } := by
-          refine ⟨hr.q, fun r => ?_, hr.nq, ?_, hr.pos, hr.defs, hr.gates⟩
+          refine ⟨hr.q, fun r => ?_, hr.nq, ?_, hr.pos⟩
           · rw [regFind_cons, regs_find_add _ _ _ _ hq, hr.c r, hr.nc]
           · simp [Regs.add, hr.nc]
-        obtain ⟨st', hi, hrel, hfl, hrest⟩ := ih _ _ env' o2 hall.2 hr' h2
-        exact ⟨st', fun tail => by simpa [initPass] using hi tail, hrel, by simp [hfl], hrest⟩
+        obtain ⟨st', hi, hrel, hfl, hrest, hdefs, hgates⟩ := ih _ _ env' o2 hall.2 hr' h2
+        exact ⟨st', fun tail => by simpa [initPass] using hi tail, hrel, by simp [hfl], hrest, hdefs, hgates⟩
     | _ => simp [isDecl] at hall
 
 /-- **the class W₀** -/
@@ -1280,8 +1282,8 @@ theorem import_refines (p : Program) (hw : W0 p) (env : Env) (fl : List FlatOp)
   obtain ⟨rfl, rfl⟩ := h2
   obtain ⟨e2, o4, o5, h4, h5, rfl⟩ := flattenFrom_append_inv h3
   have hr0 : Rel ({} : Init) { ({} : Env) with gates := qelib1.reverse } :=
-    ⟨fun _ => rfl, fun _ => rfl, rfl, rfl, fun _ r s n hh => by simp [Regs.find?] at hh, rfl, rfl⟩
-  obtain ⟨st', hi, hrel, hfl, hrest⟩ := decls_rel decls {} _ e2 o4 hd hr0 h4
+    ⟨fun _ => rfl, fun _ => rfl, rfl, rfl, fun _ r s n hh => by simp [Regs.find?] at hh⟩
+  obtain ⟨st', hi, hrel, hfl, hrest, _, hgates⟩ := decls_rel decls {} _ e2 o4 hd hr0 h4
   subst hfl
   have hzo : ∀ s ∈ ops, ∀ e ∈ paramsOf s, divZero e = false := fun s hs => hz s (by simp [hs])
   have hinit : initPass (.incl cs!"qelib1.inc" :: (decls ++ ops)) {} =
@@ -1291,10 +1293,10 @@ theorem import_refines (p : Program) (hw : W0 p) (env : Env) (fl : List FlatOp)
     rw [hi ops, initPass_ops ops st' ho, this]
     simp
   have hrel' : Rel { st' with rest := ops.filter keepStmt } e2 :=
-    ⟨hrel.q, hrel.c, hrel.nq, hrel.nc, hrel.pos, hrel.defs, hrel.gates⟩
+    ⟨hrel.q, hrel.c, hrel.nq, hrel.nc, hrel.pos⟩
   have hee : env = e2 := flattenFrom_ops_env ops e2 env o5 ho h5
   subst hee
-  obtain ⟨he, hfin⟩ := finalPass_ops hrel' initialKnown ops env o5 ho hzo
+  obtain ⟨he, hfin⟩ := finalPass_ops hrel' hgates initialKnown ops env o5 ho hzo
     (fun s hs => hk s (by simp [hs])) h5
   simp only [importProgram, hinit]
   rw [hfin]
